@@ -17,7 +17,7 @@ func init() {
 		Decided: "(a) every teardown path closes what it must: passiveClose/Close reach closeAll, a read or write error reaches passiveClose, closeAll closes every pooled connection, closeSession closes the accept queue and every stream's receive buffer under the table lock; " +
 			"(b) nothing is registered after teardown: every insert of a live stream into the table and every send on the accept queue happens in a table-lock section in which the closed flag was re-read as false, and the queue is closed only there, so send-on-closed-channel cannot panic; " +
 			"(c) the active-stream counter is incremented exactly where a live stream is inserted and decremented only after winning the CAS on that stream's closed flag; " +
-			"(d) the inactivity timer closes only when the count is zero and the session is open, a singleplex session closes with its stream; (e) the multiplex lock-order graph is acyclic; (f) both pipes wake their readers on every predicate change.",
+			"(d) the inactivity timer closes only when the count is zero and the session is open — for every timer armed anywhere in the multiplexer, every path from its callback to a session close re-tests the count after firing —, a singleplex session closes with its stream; (e) the multiplex lock-order graph is acyclic; (f) both pipes wake their readers on every predicate change.",
 		NotDecided:  "that blocked socket writers are really released by conn.Close (net semantics); timer timing; 'prefix' as a value; liveness beyond these safety-shaped preconditions.",
 		Assumptions: []string{"atomic.CompareAndSwap semantics", "closing a net.Conn unblocks its pending I/O"},
 	})
@@ -34,6 +34,7 @@ func runC12(c *Ctx) {
 	condvarRules(c, "C12.R8")
 	nestedMonitorRules(c, "C12.R9", func(cl string) bool { return strings.HasPrefix(cl, "multiplex.") })
 	c12R10(c, "C12.R10")
+	c12R11(c, "C12.R11")
 	// imported: every stream close wakes its reader before anything that can fail ("every blocked read returns")
 	c.importing = "C03"
 	c03R2(c, "C03.R2")
